@@ -85,7 +85,9 @@ def bytes_values(thorough):
 STR_VALUES = ["", "a", " a b ", "a&<>\"'b", "]]>", "\t", "\n", "x\ry", "\U0001F600", "1", "true", "  ", "{a}b"]
 
 QN_VALUES = [QName("a"), QName("{urn:a}b"), QName("{urn:b}c-d.e"), QName("{http://www.w3.org/2001/XMLSchema}int"), QName("_x")]
-QN_MAPS = [None, {}, {"p": "urn:a"}, {"p": "urn:b", "q": "urn:a"}, {None: "urn:a"}, {"ns0": "urn:zzz"}, {"xs": "http://www.w3.org/2001/XMLSchema"}]
+QN_MAPS = [None, {}, {"p": "urn:a"}, {"p": "urn:b", "q": "urn:a"}, {None: "urn:a"}, {"ns0": "urn:zzz"}, {"xs": "http://www.w3.org/2001/XMLSchema"},
+           # a conventional prefix that the user bound to something else, and generated-looking prefixes in use
+           {"xs": "urn:vendor:types"}, {"xs": "urn:vendor:types", "xsi": "urn:a"}, {"ns1": "urn:zzz", "ns0": "urn:yyy"}]
 
 
 class EStr(Enum):
@@ -299,6 +301,9 @@ XML_VALUES = [
     XmlDateTime(2020, 1, 2, 3, 4, 5), XmlDateTime(0, 1, 1, 0, 0, 0, 0, 0), XmlDateTime(2020, 2, 29, 23, 59, 59, 999999999, 840),
     XmlDuration("P1D"), XmlDuration("-PT0.5S"), XmlDuration("P1Y2M3DT4H5M6.7S"),
     XmlPeriod("2001"), XmlPeriod("--02"), XmlPeriod("---31Z"), XmlPeriod("--02-29"), XmlPeriod("2001-10+05:30"), XmlPeriod("-0001"),
+    # year zero, and fractions whose digit groups have leading zeros
+    XmlPeriod("0000"), XmlPeriod("0000Z"), XmlPeriod("0000-05"),
+    XmlTime(1, 2, 3, 123045000), XmlTime(0, 0, 0, 1000), XmlTime(0, 0, 0, 1001000), XmlDateTime(2020, 1, 2, 3, 4, 5, 123045000), XmlDateTime(2020, 1, 2, 3, 4, 5, 50),
 ]
 
 _C: dict = {}
@@ -316,6 +321,7 @@ def h_qname(ch: Chooser):
     v = ch.pick(QN_VALUES, "qname", True)
     m = ch.pick(QN_MAPS, "map", True)
     m = None if m is None else dict(m)
+    ch_map_before = None if m is None else dict(m)
     case = {"leg": "qname", "value": v.text, "ns_map": repr(m)}
     r = call(converter.serialize, v, ns_map=m)
     if r[0] == "exc":
@@ -323,6 +329,12 @@ def h_qname(ch: Chooser):
     s = r[1]
     case["text"] = s
     case["ns_map_after"] = repr(m)
+    if m is not None:
+        # the map may grow, what it already said stays: other values were written with those bindings
+        before = ch_map_before
+        changed = {k: (before[k], m.get(k)) for k in before if m.get(k) != before[k]}
+        if changed:
+            return dict(ok=False, case=case, bucket="qname/rebinds-a-prefix-in-use", detail=f"serializing {v.text} changed existing bindings {changed}")
     ns, local = (v.text[1:].split("}") if v.text[0] == "{" else (None, v.text))
     if m is None:
         # no map: documented "{uri}local" form
